@@ -388,6 +388,19 @@ def edge_inputs(tier):
                            "template<int N = nothing> struct Y {};", "template<class T = decltype(nothing)> struct Z {};"]):
         add("ty%d" % i, t + "\n")
         add("ty-pub%d" % i, "struct Pub%d {\n__published:\n  int keep;\n};\n%s\n" % (i, t))
+    # methods named like Python slots, declared with signatures the slot does not have (the python-native maker
+    # calls them with the slot's own argument list)
+    slots = ["__traverse__", "__getbuffer__", "__releasebuffer__", "__clear__", "__setattr__", "__delattr__", "__getattr__", "__setitem__",
+             "__getitem__", "__delitem__", "__len__", "__call__", "__iter__", "__next__", "__hash__", "__repr__", "__str__", "__bool__",
+             "__nonzero__", "__cmp__", "compare_to", "__contains__", "__reduce__", "__copy__", "__deepcopy__", "__getstate__", "__setstate__",
+             "__enter__", "__exit__", "__index__", "__int__", "__float__", "__pow__", "__ipow__", "__round__", "__divmod__", "operator []",
+             "operator ()", "__init__", "__new__", "__del__", "get_key", "size", "output", "write", "make_copy"]
+    sigs = ["void %s();", "int %s();", "int %s(int x);", "int %s(int x) const;", "void %s(int a, int b, int c, int d);", "static int %s();",
+            "static void %s(int x);", "double %s(double x, const char *s);", "void %s(...);", "int %s(int x = 3);"]
+    for i, sl in enumerate(slots):
+        body = "\n".join("  " + sg % sl for sg in (sigs[i % len(sigs)], sigs[(i + 3) % len(sigs)]))
+        add("slot%d" % i, "class Sl%d {\n__published:\n  Sl%d();\n%s\n};\n" % (i, i, body))
+        add("slot1-%d" % i, "class Sm%d {\n__published:\n  Sm%d();\n  %s\n};\n" % (i, i, sigs[(i + 1) % len(sigs)] % sl))
     # classes that contain themselves (incomplete-type members)
     for i, t in enumerate(["struct A {\n__published:\n  A a;\n};\n", "struct A {\n  A a;\n__published:\n  int f();\n};\n",
                            "struct A {\n__published:\n  struct B : A { int z; } b;\n};\n", "struct A {\n__published:\n  A a[2];\n};\n",
